@@ -79,11 +79,12 @@ def InTable_processCharacters (r : Rec) (tok : Token) : M (Option Token) := do
   let _ ← r.processCharacters (← curPhase "InTablePhase.processCharacters") tok
   pure none
 
-/-- `InTablePhase.insertText` (1714-1719) -/
+/-- `InTablePhase.insertText` (1725-1731; since fix 5140af5 the previous value of `insertFromTable` is restored) -/
 def InTable_insertText (r : Rec) (tok : Token) : M Unit := do
+  let previous := (← get).insertFromTable
   setInsertFromTable true
   let _ ← r.processCharacters .inBody tok
-  setInsertFromTable false
+  setInsertFromTable previous
 
 /-- `InTablePhase.startTagCaption` (1721-1725) -/
 def InTable_startTagCaption (tok : Token) : M (Option Token) := do
@@ -127,13 +128,14 @@ def InTable_startTagTable (r : Rec) (tok : Token) : M (Option Token) := do
 def InTable_startTagStyleScript (r : Rec) (tok : Token) : M (Option Token) :=
   r.processStartTag .inHead tok
 
-/-- `InTablePhase.startTagOther` (1772-1777) -/
+/-- `InTablePhase.startTagOther` (1784-1790; `insertFromTable` restored to its previous value, fix 5140af5) -/
 def InTable_startTagOther (r : Rec) (tok : Token) : M (Option Token) := do
   let d ← tok.tag "InTablePhase.startTagOther"
   parseError "unexpected-start-tag-implies-table-voodoo" [("name", d.name)]
+  let previous := (← get).insertFromTable
   setInsertFromTable true
   let _ ← r.processStartTag .inBody tok
-  setInsertFromTable false
+  setInsertFromTable previous
   pure none
 
 /-- `InTablePhase.startTagInput` (1755-1763) -/
@@ -184,13 +186,14 @@ def InTable_endTagIgnore (tok : Token) : M (Option Token) := do
   parseError "unexpected-end-tag" [("name", d.name)]
   pure none
 
-/-- `InTablePhase.endTagOther` (1798-1803) -/
+/-- `InTablePhase.endTagOther` (1811-1817; `insertFromTable` restored to its previous value, fix 5140af5) -/
 def InTable_endTagOther (r : Rec) (tok : Token) : M (Option Token) := do
   let d ← tok.tag "InTablePhase.endTagOther"
   parseError "unexpected-end-tag-implies-table-voodoo" [("name", d.name)]
+  let previous := (← get).insertFromTable
   setInsertFromTable true
   let _ ← r.processEndTag .inBody tok
-  setInsertFromTable false
+  setInsertFromTable previous
   pure none
 
 /-! ### InTableTextPhase (1827-1872) -/
